@@ -152,6 +152,18 @@ static std::string do_op(const std::vector<std::string>& f) {
       UserDictManager mgr(&deployer);
       ret << (mgr.Restore(path(snap_path(x))) ? 1 : 0);
     }
+  } else if (name == "leftover") {
+    // a Restore of snapshot x by installation i that was killed after it had filled its scratch db: <user dir>/.temp.userdb
+    // stays behind with the snapshot's records (the opening steps of UserDictManager::Restore, without the clean-up)
+    if (!fs::exists(snap_path(x))) {
+      ret << "nofile";
+    } else {
+      the<Db> temp(UserDb::Require("userdb")->Create(".temp"));
+      if (temp->Exists()) temp->Remove();
+      bool ok = temp->Open() && temp->Restore(path(snap_path(x)));
+      temp->Close();
+      ret << (ok ? 1 : 0);
+    }
   } else if (name == "restoref") {
     if (!fs::exists(file_slot(x))) {
       ret << "nofile";
